@@ -137,7 +137,7 @@ def _confirm_failure(prop: str, failure: dict, first_failure: dict | None, histo
         k = 2
         while True:
             seq = cases[-k:]
-            cand = {"prop": prop, "part": history["part"], "sequence": seq,
+            cand = {"prop": prop, "part": history["part"], "sequence": seq, "warm": history.get("warm", "none"),
                     "clause": first_failure["clause"], "detail": first_failure["detail"]}
             path = _write_replay(prop, cand)
             if _reproduces(prop, path):
